@@ -16,7 +16,7 @@ import (
 
 func (V *Verifier) newX(fn *ssa.Function, key string, ct *Contract) *X {
 	return &X{V: V, fn: fn, key: shortKey(key), ct: ct, inlined: map[string]bool{}, externs: map[string]bool{}, assumed: map[string]bool{},
-		callCnt: map[string]int{}, nameCnt: map[string]int{}, opqNils: map[string]string{}, sorts: map[string]string{}, sums: map[string]*SumFn{}, maxPaths: 400}
+		callCnt: map[string]int{}, nameCnt: map[string]int{}, opqNils: map[string]string{}, walkIdx: map[ssa.Value]int{}, sorts: map[string]string{}, sums: map[string]*SumFn{}, maxPaths: 400}
 }
 
 func shortKey(k string) string {
@@ -43,6 +43,11 @@ func (V *Verifier) verifyFunctions(keys []string, keep func(o *Oblig) bool, scra
 		fn, ok := V.fnByKey[k]
 		if !ok {
 			results = append(results, &fnResult{VerifyResult: &VerifyResult{Key: shortKey(k), Undecided: "contract names a function that does not exist"}})
+			continue
+		}
+		if ct.Trusted != "" {
+			// contract assumed at call sites; the body is not verified against it (reported in the evidence)
+			results = append(results, &fnResult{VerifyResult: &VerifyResult{Key: shortKey(k), Assumed: []string{shortKey(k) + " (trusted: " + ct.Trusted + ")"}, Paths: -1}})
 			continue
 		}
 		x := V.newX(fn, k, ct)
@@ -123,6 +128,10 @@ func cmdVerify(V *Verifier, pats []string, verbose bool) int {
 		if r.Undecided != "" {
 			fmt.Printf("UNDECIDED function=%s reason=%s\n", r.Key, r.Undecided)
 			bad++
+			continue
+		}
+		if r.Paths < 0 {
+			fmt.Printf("%s: TRUSTED (assumed, not verified)\n", r.Key)
 			continue
 		}
 		nok := 0
@@ -274,6 +283,12 @@ func (V *Verifier) checkProperty(prop string, verbose bool, t0 time.Time) int {
 			undecided = append(undecided, Undecided{r.Key, r.Undecided})
 			continue
 		}
+		if r.Paths < 0 {
+			for _, k := range r.Assumed {
+				asm[k] = true
+			}
+			continue
+		}
 		fuc = append(fuc, r.Key)
 		paths += r.Paths
 		for _, k := range r.Inlined {
@@ -414,7 +429,7 @@ func (V *Verifier) writeReplay(prop string, o *Oblig) string {
 	fmt.Fprintf(&b, "property: %s\nobligation: %s\nkind: %s\nfunction: %s\nclause: %s\nstatus: %s\nsolvers: %s\n", prop, o.Name, o.Kind, o.Fn, o.Clause, o.Status, o.Detail)
 	os.WriteFile(filepath.Join(dir, "obligation.txt"), []byte(b.String()), 0o644)
 	if o.Goal != "" {
-		q := V.buildQuery(o, nil, !o.Vacuity)
+		q := V.buildQuery(o, nil, !o.Vacuity, 0)
 		os.WriteFile(filepath.Join(dir, "query.smt2"), []byte(q), 0o644)
 	}
 	return dir
